@@ -328,9 +328,9 @@ pub fn gen_doc_wide(r: &mut Rng, corpus: &Corpus) -> (String, &'static str) {
 /// Significant-alphabet text tokens. Not generated: text that looks like an extended autolink
 /// (`www.`, `scheme://`, `@`), which is a separate parser feature.
 const STD_TOK: &[&str] = &[
-    "*", "_", "[", "]", "#", "<", ">", "\\", "`", "!", "&", "-", "+", "=", ".", ")", "(", "|", "~", ":", "\"", "'", "$", "^", "1", "2", "10",
+    "*", "_", "[", "]", "#", "<", ">", "\\", "`", "!", "&", "-", "+", "=", ".", ")", "(", "|", "~", ":", "\"", "'", "1", "2", "10",
     "a", "b", "word", "x", " ", " ", " ", " ", "amp;", "# ", "- ", "+ ", "1. ", "2) ", "> ", "![", "](", "&a", "&#",
-    "é", "世", "~~", "**", "__", "--", "...", "%", "{", "}", ";", "/", "?", ",",
+    "é", "世", "~~", "**", "__", "--", "...", "%", "{", "}", "/", "?", ",",
 ];
 
 fn std_text(r: &mut Rng, max: usize) -> String {
@@ -1120,12 +1120,18 @@ pub enum Cf {
     AutolinkForm,
     Amp,
     TaskFirst,
+    HtmlIndent,
+    NestedBullets,
+    HtmlInlineMultiline,
+    FirstInItem,
+    EmphAll,
 }
 
 pub const CFS: &[(Cf, &str)] = &[
     (Cf::Digit, "ordered-marker-width-grows-at-digit-boundary"),
     (Cf::QuoteLiteral, "blank-line-after-literal-block-in-block-quote-loses-prefix"),
     (Cf::EmptyItem, "empty-list-item"),
+    (Cf::FirstInItem, "item-starting-with-break-html-or-table-leaves-bare-marker-line"),
     (Cf::Loose, "tight-list-item-suppresses-needed-blank-line"),
     (Cf::EmphRuns, "adjacent-emphasis-delimiter-runs-merge"),
     (Cf::HeadingBreak, "hard-break-inside-heading"),
@@ -1133,7 +1139,7 @@ pub const CFS: &[(Cf, &str)] = &[
     (Cf::CodeAdjacent, "adjacent-indented-code-blocks-merge"),
     (Cf::LeadingSpace, "text-starting-with-space"),
     (Cf::Tilde, "tilde-not-escaped"),
-    (Cf::Pipe, "pipe-not-escaped-outside-table"),
+    (Cf::Pipe, "table-delimiter-row-lookalike-not-escaped"),
     (Cf::EndList, "end-of-list-comment-is-itself-a-literal-block"),
     (Cf::HtmlInlineLineStart, "inline-html-at-start-of-continuation-line-becomes-html-block"),
     (Cf::UnterminatedHtml, "html-block-without-end-condition-swallows-blank-line"),
@@ -1143,6 +1149,10 @@ pub const CFS: &[(Cf, &str)] = &[
     (Cf::AutolinkForm, "angle-autolink-form-for-address-that-does-not-rescan"),
     (Cf::Amp, "ampersand-escape-depends-on-text-node-boundary"),
     (Cf::TaskFirst, "task-item-whose-first-block-is-not-a-paragraph"),
+    (Cf::HtmlIndent, "indented-html-block-after-list-joins-the-item"),
+    (Cf::NestedBullets, "nested-empty-bullet-markers-spell-a-thematic-break"),
+    (Cf::HtmlInlineMultiline, "multi-line-inline-html-loses-continuation-indent"),
+    (Cf::EmphAll, "emphasis-respelled-with-asterisk-or-next-to-decoded-entity-changes-flanking"),
 ];
 
 fn is_emphish(v: &NodeValue) -> bool {
@@ -1169,8 +1179,49 @@ fn apply_cf<'a>(arena: &'a Arena<AstNode<'a>>, root: &'a AstNode<'a>, cf: Cf) {
                 }
             }
             Cf::Loose => {
+                // loose, and re-parsed as loose: every item gets a second paragraph
                 if let NodeValue::List(ref mut l) = n.data.borrow_mut().value {
                     l.tight = false;
+                }
+                if matches!(v, NodeValue::Item(_) | NodeValue::TaskItem(_)) {
+                    let p = mk(NodeValue::Paragraph);
+                    p.append(mk(NodeValue::Text("x".into())));
+                    n.append(p);
+                }
+            }
+            Cf::FirstInItem => {
+                if matches!(v, NodeValue::Item(_) | NodeValue::TaskItem(_)) {
+                    let first_bare = n.first_child().map_or(false, |c| matches!(c.data.borrow().value, NodeValue::ThematicBreak | NodeValue::HtmlBlock(_) | NodeValue::Table(_)));
+                    if first_bare {
+                        let p = mk(NodeValue::Paragraph);
+                        p.append(mk(NodeValue::Text("x".into())));
+                        n.prepend(p);
+                    }
+                }
+            }
+            Cf::EmphAll => {
+                if is_emphish(&v) {
+                    unwrap_node(n);
+                }
+            }
+            Cf::HtmlIndent => {
+                if let NodeValue::HtmlBlock(ref mut h) = n.data.borrow_mut().value {
+                    h.literal = h.literal.trim_start_matches(' ').to_string();
+                }
+            }
+            Cf::NestedBullets => {
+                let nested = n.parent().map_or(false, |p| matches!(p.data.borrow().value, NodeValue::Item(_)));
+                if nested {
+                    if let NodeValue::List(ref mut l) = n.data.borrow_mut().value {
+                        l.list_type = ListType::Ordered;
+                        l.start = 1;
+                    }
+                }
+            }
+            Cf::HtmlInlineMultiline => {
+                let multi = matches!(v, NodeValue::HtmlInline(ref h) if h.contains('\n'));
+                if multi {
+                    n.data.borrow_mut().value = NodeValue::Text("h".into());
                 }
             }
             Cf::QuoteLiteral => {
@@ -1237,7 +1288,7 @@ fn apply_cf<'a>(arena: &'a Arena<AstNode<'a>>, root: &'a AstNode<'a>, cf: Cf) {
                         Cf::Tilde => *t = t.replace('~', "x"),
                         Cf::Caret => *t = t.replace('^', "x"),
                         Cf::Amp => *t = t.replace('&', "x"),
-                        _ => *t = t.replace('|', "x"),
+                        _ => *t = t.replace('|', "x").replace(':', "x"),
                     }
                 }
             }
@@ -1255,7 +1306,7 @@ fn apply_cf<'a>(arena: &'a Arena<AstNode<'a>>, root: &'a AstNode<'a>, cf: Cf) {
                 if matches!(v, NodeValue::SoftBreak | NodeValue::LineBreak) {
                     let next_html = n.next_sibling().map_or(false, |x| matches!(x.data.borrow().value, NodeValue::HtmlInline(_)));
                     if next_html {
-                        n.data.borrow_mut().value = NodeValue::Text(" ".into());
+                        n.data.borrow_mut().value = NodeValue::Text("x ".into());
                     }
                 }
             }
